@@ -1,7 +1,7 @@
 """C03 — closing and reopening reproduces the view; open modes (P-tier: _open order/modes/effects, __init__ mode table)."""
 from pyvc.api import SpecRegistry
 
-from . import findfiles, hashing, naming, record, ublock
+from . import findfiles, hashing, manifest, naming, record, ublock
 
 
 def build(reg):
@@ -15,6 +15,8 @@ def build(reg):
     specs += naming.add_naming(reg)
     specs += record.add_delete_files(reg)  # what mode 'w' removes
     specs += [x for x in ublock.add_ublock(reg) if x.qual.endswith('.load')]  # which bytes a block is parsed from
+    specs += [x for x in manifest.add_manifest(reg) if x.qual in ("IH5MFRecord._open", "IH5MFRecord._check_ublock")]  # the subclass hooks of reopening: same acceptance, manifest next to the NEWEST container
+    specs += [reg.specs[k] for k in reg.specs if k[1] in ("hashsum_file",)]
     from . import oneliners
 
     specs = specs + oneliners.add_oneliners(reg, props=("C03",))  # one- and two-line delegations, verified against what other contracts bind them to
